@@ -272,3 +272,47 @@ def rule_focus_cut(ctx):
                 res.inst(ikey, f["sp"]["file"], f["sp"]["line"], "ok", "%d path(s): <N(p) | N(c)>" % len(normal))
     res.require_floor(12)
     return res
+
+
+def rule_bindseq(ctx):
+    """R-BINDSEQ: the arguments of a construct are lifted in the order in which they stand"""
+    from .. import prov
+    fx = ctx.fx
+    res = RuleResult("R-BINDSEQ", "where focusing lifts a whole argument sequence (bind_many), the sequence it hands over is the argument list of "
+                     "the construct as it stands - a field of the term, passed on by order-preserving plumbing only - and not a rearranged "
+                     "one (partitioned by polarity, sorted, reversed, filtered, chained): the arguments are evaluated in the order in which "
+                     "they are lifted, so rearranging the sequence rearranges the effects of the program, whatever is done to the names afterwards")
+    n = 0
+    for k, f in sorted(fx.fns.items()):
+        if f["crate"] != "scc_core_lang" or "{promoted" in k:
+            continue
+        fn = None
+        for bi, b in enumerate(f["blocks"]):
+            t = b["term"]
+            if t["k"] != "call" or t.get("callee_name") != "bind_many" or not t["args"]:
+                continue
+            fn = fn or Fn(f)
+            if bi not in fn.reach:
+                continue
+            flow = prov.make_flow(fn, fx, extra_names=())
+            roots = prov.collection_roots(fn, flow, t["args"][0], fx=fx)
+            n += 1
+            ikey = "%s@bind_many:%d" % (k, sum(1 for b2 in f["blocks"][:bi] if b2["term"]["k"] == "call" and b2["term"].get("callee_name") == "bind_many"))
+            other = [r for r in roots if not (r and r[0] == "arg")]
+            if roots and not other:
+                res.inst(ikey, t["sp"]["file"], t["sp"]["line"], "ok", "the sequence is %s" % ", ".join(sorted({".".join(map(str, r[2])) or "the parameter" for r in roots})))
+            elif not roots:
+                raise AnalysisError("R-BINDSEQ: the sequence handed to bind_many in %s could not be traced" % k)
+            else:
+                def what(r):
+                    if r[0] in ("call", "hcall"):
+                        return "the result of %s" % (fn.term(r[1]).get("callee_name") if r[0] == "call" else r[1])
+                    return str(r[0])
+                res.inst(ikey, t["sp"]["file"], t["sp"]["line"], "violation")
+                res.violate(ikey, "%s lifts a sequence that is not the construct's argument list as it stands but %s: the arguments are evaluated in the "
+                            "order of the lifted sequence, so their effects happen in another order than the program says" %
+                            (k.split(" as ")[0].lstrip("<").split("::")[-1] + "::" + k.split("::")[-1], ", ".join(sorted({what(r) for r in other}))),
+                            t["sp"]["file"], t["sp"]["line"])
+    if n < 1:
+        raise AnalysisError("R-BINDSEQ: no call of bind_many found in core_lang")
+    return res
